@@ -122,7 +122,41 @@ def gen_coarse_graph(R, tier):
     return dict(input='{' + ','.join(defs) + '}', mode='fragments', all_atom=False, features=sorted(feats))
 
 
+def gen_long_coarse(R, tier):
+    """one coarse fragment that is a chain of 1050-1500 beads (deeper than the default recursion limit)"""
+    n = R.randint(1050, 1500)
+    pool = R.choice([['A'], ['A', 'B'], ['SC1', 'TC5', 'A']])
+    sym = R.choice([[''], ['', '', '='], ['', '.', '=', '#']])
+    toks = []
+    for i in range(n):
+        toks.append((R.choice(sym) if i else '') + '[#%s]' % R.choice(pool))
+    return dict(input='{#G0=[$]' + ''.join(toks) + R.choice(['[$]', '[>a]', '=[$x]']) + '}', mode='fragments', all_atom=False,
+                features=['coarse', 'coarse:long_chain_1000+'])
+
+
+def gen_dotted(R, tier):
+    """an all-atom fragment that holds two molecules separated by '.' (e.g. an ion pair or a stacked dimer); the
+    atoms next to the dot are often aromatic"""
+    parts = []
+    for _ in range(2):
+        m, _c = molgen.gen_mol_class(R, classes=[c for c in molgen.MOL_CLASSES if c['name'] in ('aromatic', 'tiny', 'chain')])
+        d = defaultdict(list)
+        for i in range(len(m.atoms)):
+            if R.chance(0.15):
+                d[i].append(rand_desc(R, 1))
+        text, _ = molgen.render_fragment(R, m, list(range(len(m.atoms))), d, molgen.style_draw(R))
+        parts.append(text)
+    text = '.'.join(parts)
+    if '[$' not in text and '[>' not in text and '[<' not in text and '[!' not in text:
+        text = text + '[$]'
+    return dict(input='{#F0=%s}' % text, mode='fragments', all_atom=True, features=['atomistic', 'two_molecules_in_one_fragment'])
+
+
 def gen(R, tier):
+    if R.chance(0.004):
+        return gen_long_coarse(R, tier)
+    if R.chance(0.06):
+        return gen_dotted(R, tier)
     k = R.choice(['atomistic', 'atomistic', 'coarse', 'coarse_graph', 'coarse_graph', 'string', 'string'])
     if k == 'coarse_graph':
         return gen_coarse_graph(R, tier)
@@ -158,8 +192,8 @@ def compare_fragment(name, g, h, all_atom):
 
     def em(a, b):
         return a.get('order') == b.get('order')
-    ok = len(g) == len(h) and g.number_of_edges() == h.number_of_edges() and nx.is_isomorphic(g, h, node_match=nm, edge_match=em)
-    return ok
+    from ..invariants import iso
+    return iso(g, h, nm, em)
 
 
 def _show(g, all_atom):
@@ -176,6 +210,10 @@ def oracle(case):
     if case['mode'] == 'fragments':
         aa = case['all_atom']
         frags = sut(read_fragments, case['input'], all_atom=aa)
+        if len(case['input']) > 5000:
+            from ..runner import user_recursion_limit
+            with user_recursion_limit():
+                sut(write_cgsmiles_fragments, frags, smiles_format=aa)
         written = sut(write_cgsmiles_fragments, frags, smiles_format=aa)
         try:
             back = sut(read_fragments, written, all_atom=aa)
